@@ -148,7 +148,9 @@ class FrameCollector:
         if collect_vars and not self.__time_exceeded():
             processor = VariableSetProcessor(var_lookup, var_cache, self.__source.collection_config)
             # we process the vars as a single dict of 'locals'
-            variable, log_str = processor.process_variable("locals", f_locals)
+            # process a copy of the mapping: the entry is removed again below, so the id of the real f_locals
+            # mapping must not stay in the cache (a watch on locals() would then refer to the removed entry)
+            variable, log_str = processor.process_variable("locals", dict(f_locals))
             # now ee 'unwrap' the locals, so they are on the frame directly.
             if variable.vid in var_lookup:
                 variable_val = var_lookup[variable.vid]
